@@ -95,6 +95,86 @@ theorem spec_accepts_model (c0 : Nat) (sched : List Nat) :
 example : ids (run .rmw { ctr := 1 } [3, 3, 7, 0, 7]) = [1, 2, 3, 4, 5] := by decide
 example : distinctSorted [3, 5, 5] = 2 := by decide
 
+/-! ## the counter as the code has it: a wrapping `usize` -/
+
+theorem runW_aux (w : Nat) (sched : List Nat) : ∀ (s : St) (k c0 : Nat),
+    s.ctr = (c0 + k) % 2 ^ w →
+    (runW w s sched).ctr = (c0 + k + sched.length) % 2 ^ w ∧
+    ids (runW w s sched) = ids s ++ (List.range' (c0 + k) sched.length).map (· % 2 ^ w) := by
+  induction sched with
+  | nil => intro s k c0 h; simp [runW, h]
+  | cons t ts ih =>
+    intro s k c0 h
+    have hs : (stepW w s t).ctr = (c0 + (k + 1)) % 2 ^ w := by
+      simp only [stepW, h]; rw [Nat.mod_add_mod]; rfl
+    have := ih (stepW w s t) (k + 1) c0 hs
+    simp only [runW, List.foldl_cons] at this ⊢
+    refine ⟨by rw [this.1]; congr 1; simp; omega, ?_⟩
+    rw [this.2]
+    simp [stepW, ids, List.range'_succ, h]
+    congr 2
+
+/-- closed form on the wrapping counter: for every width, start value and interleaving the ids
+are `c₀, c₀+1, …` reduced modulo `2^w`, in allocation order -/
+theorem ids_runW (w c0 : Nat) (hc : c0 < 2 ^ w) (sched : List Nat) :
+    ids (runW w { ctr := c0 } sched) = (List.range' c0 sched.length).map (· % 2 ^ w) := by
+  have h := (runW_aux w sched { ctr := c0 } 0 c0 (by simp [Nat.mod_eq_of_lt hc])).2
+  simpa [ids] using h
+
+/-- **Uniqueness on the real (wrapping) counter**: on a `w`-bit `usize`, for every start value
+and every interleaving of at most `2^w` allocations (any number of threads and Swarms) no id is
+handed out twice. -/
+theorem unique_wrapping (w c0 : Nat) (hc : c0 < 2 ^ w) (sched : List Nat)
+    (hn : sched.length ≤ 2 ^ w) : (ids (runW w { ctr := c0 } sched)).Nodup := by
+  rw [ids_runW w c0 hc]
+  rw [List.nodup_iff_pairwise_ne, List.pairwise_iff_getElem]
+  intro i j hi hj hij
+  simp only [List.length_map, List.length_range'] at hi hj
+  simp only [List.getElem_map, List.getElem_range', Nat.one_mul]
+  intro e
+  have h0 := Nat.sub_mod_eq_zero_of_mod_eq e.symm
+  have : c0 + j - (c0 + i) = j - i := by omega
+  rw [this, Nat.mod_eq_of_lt (by omega)] at h0
+  omega
+
+/-- … and that bound is tight: allocation number `2^w + 1` receives the id of allocation number 1
+again, for every interleaving.  (With `w = 64` and one allocation per nanosecond that is 584
+years of process lifetime — the sense in which the property "holds".) -/
+theorem wrapping_reuse (w c0 : Nat) (hc : c0 < 2 ^ w) (sched : List Nat)
+    (hn : sched.length = 2 ^ w + 1) :
+    (ids (runW w { ctr := c0 } sched))[0]? = some c0 ∧
+    (ids (runW w { ctr := c0 } sched))[2 ^ w]? = some c0 ∧
+    ¬ (ids (runW w { ctr := c0 } sched)).Nodup := by
+  have h0 : (ids (runW w { ctr := c0 } sched))[0]? = some c0 := by
+    rw [ids_runW w c0 hc]; simp [hn, Nat.mod_eq_of_lt hc]
+  have h1 : (ids (runW w { ctr := c0 } sched))[2 ^ w]? = some c0 := by
+    rw [ids_runW w c0 hc]; simp [hn, Nat.mod_eq_of_lt hc]
+  refine ⟨h0, h1, ?_⟩
+  intro hnd
+  have hp := List.pairwise_iff_getElem.1 (List.nodup_iff_pairwise_ne.1 hnd)
+  have hl : (ids (runW w { ctr := c0 } sched)).length = 2 ^ w + 1 := by
+    rw [ids_runW w c0 hc]; simp [hn]
+  have hpos : 0 < 2 ^ w := Nat.pos_of_ne_zero (by simp)
+  have := hp 0 (2 ^ w) (by omega) (by omega) hpos
+  rw [List.getElem?_eq_getElem (by omega)] at h0 h1
+  simp only [Option.some.injEq] at h0 h1
+  exact this (h0.trans h1.symm)
+
+/-- the wrapping machine and the unbounded one hand out the same ids as long as the counter has
+not wrapped (`c₀ + n ≤ 2^w`): the `Nat` model used for the correspondence runs is exact there -/
+theorem wrapping_agrees_until_wrap (w c0 : Nat) (sched : List Nat)
+    (hn : c0 + sched.length ≤ 2 ^ w) (hc : c0 < 2 ^ w) :
+    ids (runW w { ctr := c0 } sched) = ids (run .rmw { ctr := c0 } sched) := by
+  rw [ids_runW w c0 hc, (unique_rmw c0 sched).1]
+  apply List.ext_getElem (by simp)
+  intro i h1 h2
+  simp only [List.length_map, List.length_range'] at h1
+  simp only [List.getElem_map, List.getElem_range', Nat.one_mul]
+  exact Nat.mod_eq_of_lt (by omega)
+
+example : ids (runW 2 { ctr := 1 } [5, 5, 9, 0, 9]) = [1, 2, 3, 0, 1] := by decide
+example : ids (runW 3 { ctr := 7 } [0, 1, 2]) = [7, 0, 1] := by decide
+
 end C03
 
 #print axioms C03.unique_rmw
@@ -102,3 +182,6 @@ end C03
 #print axioms C03.unique_rmw_pairwise
 #print axioms C03.loadStore_counterexample
 #print axioms C03.spec_accepts_model
+#print axioms C03.unique_wrapping
+#print axioms C03.wrapping_reuse
+#print axioms C03.wrapping_agrees_until_wrap
